@@ -26,17 +26,21 @@ ChainOK(t, i, fuel) == IF t[i] = 0 THEN TRUE ELSE IF fuel = 0 THEN FALSE ELSE Ch
 ValidTargets(n, t) == /\ \A i \in 1..n: t[i] # i /\ ChainOK(t, i, n)
                       /\ Cardinality({i \in 1..n : t[i] # 0}) <= MaxLinks
 
-Families == {"node", "anynode", "mixin", "light", "links"}
+Families == {"node", "anynode", "mixin", "light", "links", "linksown", "falsy"}
+HasLinks(f) == f \in {"links", "linksown"}
 Hows(f) == {"deepcopy"} \cup {"pickle" \o ToString(i) : i \in (IF f = "light" THEN 2..5 ELSE 0..5)}
 
 Nodes == 1..k
 Par == p
 Ch == [i \in Nodes |-> SelectSeq([j \in 1..k |-> j], LAMBDA j: p[j] = i)]
-Cls(i) == IF fam = "links" THEN (IF tg[i] # 0 THEN "symlink" ELSE "node") ELSE fam
+Cls(i) == IF HasLinks(fam) THEN (IF tg[i] # 0 THEN (IF fam = "links" THEN "symlink" ELSE "symlinkown") ELSE "node") ELSE fam
+\* own instance attributes: ordinary nodes carry foo; a link of the family "linksown" keeps a link-local attribute `tag`
+OwnPairs(i) == IF tg[i] = 0 THEN << <<"foo", "v" \o ToString(i)>> >>
+               ELSE IF fam = "linksown" THEN << <<"tag", "t" \o ToString(i)>> >> ELSE <<>>
 \* ordinary nodes carry foo = "v<i>"; links forward
 Own == [i \in Nodes |-> IF tg[i] # 0 THEN [x \in {} |-> "1"] ELSE [x \in {"foo"} |-> "v" \o ToString(i)]]
 Foo(own, t, S) == [i \in S |-> Get(own, t, i, "foo")]
-Pre == [par |-> Par, ch |-> Ch, tgt |-> tg, cls |-> [i \in Nodes |-> Cls(i)], foo |-> Foo(Own, tg, Nodes)]
+Pre == [par |-> Par, ch |-> Ch, tgt |-> tg, cls |-> [i \in Nodes |-> Cls(i)], foo |-> Foo(Own, tg, Nodes), own |-> [i \in Nodes |-> OwnPairs(i)]]
 
 \* the canonical copy: node i of the closure becomes k + i
 CloneDef(n) ==
@@ -48,7 +52,8 @@ CloneDef(n) ==
       ch  |-> [y \in all |-> IF y <= k THEN Ch[y] ELSE [i \in 1..Len(Ch[orig(y)]) |-> C(Ch[orig(y)][i])]],
       tgt |-> [y \in all |-> IF y <= k THEN tg[y] ELSE C(tg[orig(y)])],
       cls |-> [y \in all |-> IF y <= k THEN Cls(y) ELSE Cls(orig(y))],
-      foo |-> [y \in all |-> IF y <= k THEN Pre.foo[y] ELSE Pre.foo[orig(y)]]]
+      foo |-> [y \in all |-> IF y <= k THEN Pre.foo[y] ELSE Pre.foo[orig(y)]],
+      own |-> [y \in all |-> IF y <= k THEN OwnPairs(y) ELSE OwnPairs(orig(y))]]
 \* follow-up mutations: detach the result inside the copy; delete the children of n's root in the original
 After(st, n) ==
   LET s1 == IdealSP(st.par, st.ch, k + n, 0)
@@ -61,8 +66,8 @@ Init == /\ k \in 1..MaxN
         /\ tg \in [1..k -> 0..k]
         /\ zlast = [q |-> "init"]
         /\ ValidForest(k, p)
-        /\ (fam # "links" => \A i \in 1..k: tg[i] = 0)
-        /\ (fam = "links" => \E i \in 1..k: tg[i] # 0)
+        /\ (~HasLinks(fam) => \A i \in 1..k: tg[i] = 0)
+        /\ (HasLinks(fam) => \E i \in 1..k: tg[i] # 0)
         /\ ValidTargets(k, tg)
 
 Next == /\ UNCHANGED <<k, p, tg, fam>>
